@@ -65,6 +65,22 @@ fn image(c: &Case) -> Vec<u8> {
                     put64(&mut body, at + 32, n);
                 }
             }
+            // headers of a type the crate does not know (they are skipped, never
+            // named) in every fourth table: a section on the last page of the address
+            // space - address + size is 2^64 (ELF64) / 2^32 (ELF32)
+            if c.key & 0x300 == 0x100 && e as u32 != c.shndx {
+                if let Some(t) = c.types.get(e) {
+                    if !elf_in_use(*t) {
+                        if es == 40 {
+                            put32(&mut body, at + 12, 0xFFFF_F000);
+                            put32(&mut body, at + 20, 0x1000);
+                        } else {
+                            put64(&mut body, at + 16, 0xFFFF_FFFF_FFFF_F000);
+                            put64(&mut body, at + 32, 0x1000);
+                        }
+                    }
+                }
+            }
             if c.small_links {
                 let l = ((c.key >> 8) as usize + e) % (fit + 1);
                 put32(&mut body, at + if es == 40 { 24 } else { 40 }, l as u32);
@@ -101,6 +117,9 @@ fn exercise(ptr: *const u8, len: usize, with_names: bool, max_steps: usize) -> T
     };
     let v = rec.ext(t);
     rec.t.push("cast", v);
+    // Debug of the tag (it walks the sections; what it reads is watched by the guard page)
+    let dv = catch(|| format!("{t:?}").len());
+    rec.t.push("dbg", if dv.is_some() { Val::Ok } else { Val::Panic });
     match catch(|| t.sections()) {
         None => rec.t.push("s.new", Val::Panic),
         Some(mut it) => {
